@@ -443,6 +443,10 @@ func startWatchdog(maxOp time.Duration, maxHeap uint64) {
 			seq := atomic.LoadInt64(&opSeq)
 			runtime.ReadMemStats(&ms)
 			if ms.HeapAlloc > atomic.LoadUint64(&peakHeap) {
+				if os.Getenv("C08_HEAPTRACE") != "" && ms.HeapAlloc>>28 > atomic.LoadUint64(&peakHeap)>>28 {
+					op := curOpText()
+					fmt.Fprintf(os.Stderr, "HEAP %d MB inuse=%d MB objects=%d op=%s\n", ms.HeapAlloc>>20, ms.HeapInuse>>20, ms.HeapObjects, op)
+				}
 				atomic.StoreUint64(&peakHeap, ms.HeapAlloc)
 			}
 			if seq != lastSeq || ms.HeapAlloc < baseHeap {
@@ -458,7 +462,17 @@ func startWatchdog(maxOp time.Duration, maxHeap uint64) {
 				die("call-heap", true, running)
 			}
 			if ms.HeapAlloc > maxHeap {
-				die("call-heap", inCallNow && (running > 2*time.Second || grown > maxHeap/4), running)
+				attributable := inCallNow && (running > 2*time.Second || grown > maxHeap/4)
+				if !attributable {
+					// garbage of many finished calls is not a reason to die: collect, look again
+					runtime.GC()
+					runtime.ReadMemStats(&ms)
+					if ms.HeapAlloc <= maxHeap*3/4 {
+						baseHeap = ms.HeapAlloc
+						continue
+					}
+				}
+				die("call-heap", attributable, running)
 			}
 			if st != 0 && running > maxOp {
 				die("call-time", true, running)
@@ -486,6 +500,7 @@ func inCallF(op func() string) func() {
 type runner struct {
 	out  *hx.Out
 	size map[string]int // input size buckets
+	errs map[string]int // op kind + error kind of error-exact answers, stream step results
 	n    int
 }
 
@@ -499,6 +514,26 @@ func (r *runner) do(op string) string {
 	res := hx.Guard(func() string { return execOp(op) })
 	r.out.Emit(op, res)
 	w := strings.Fields(op)
+	if len(w) >= 1 {
+		switch {
+		case strings.HasPrefix(res, "err "):
+			r.errs[w[0]+":"+strings.Fields(res)[1]]++
+		case res == "err":
+			r.errs[w[0]+":err"]++
+		case strings.HasPrefix(res, "ok"):
+			r.errs[w[0]+":ok"]++
+		case w[0] == "stream":
+			for _, step := range strings.Split(strings.Fields(res)[0], ";") {
+				if strings.HasPrefix(step, "!") {
+					r.errs["stream-step:"+step[1:]]++
+				} else if i := strings.IndexByte(step, ':'); i > 0 {
+					r.errs["stream-step:"+step[:i]]++
+				} else {
+					r.errs["stream-step:"+step]++
+				}
+			}
+		}
+	}
 	if len(w) >= 2 {
 		h := w[len(w)-1]
 		if w[0] == "stream" {
@@ -570,7 +605,7 @@ func main() {
 	curPath = a["ops"] + ".cur"
 	atomic.StoreInt64(&opStart, time.Now().UnixNano())
 	defer out.Close()
-	r := &runner{out: out, size: map[string]int{}}
+	r := &runner{out: out, size: map[string]int{}, errs: map[string]int{}}
 	if a["mode"] == "exec" {
 		for _, l := range readLines(a["in"]) {
 			r.do(l)
@@ -605,6 +640,18 @@ func main() {
 			sb.WriteByte(',')
 		}
 		sb.WriteString(strconv.Quote(k) + ":" + strconv.Itoa(r.size[k]))
+	}
+	sb.WriteString("},\"answers\":{")
+	ks = ks[:0]
+	for k := range r.errs {
+		ks = append(ks, k)
+	}
+	sort.Strings(ks)
+	for i, k := range ks {
+		if i > 0 {
+			sb.WriteByte(',')
+		}
+		sb.WriteString(strconv.Quote(k) + ":" + strconv.Itoa(r.errs[k]))
 	}
 	sb.WriteString("}}")
 	fmt.Println("STATS " + sb.String())
